@@ -149,7 +149,7 @@ where
             encoding,
             from_header.line_encoding(),
             comp_dir,
-            comp_name,
+            comp_name.clone(),
             comp_file_info,
         );
 
@@ -161,8 +161,15 @@ where
             // something there makes the indexing easier.
             0
         } else {
-            // We don't add the first file to `files`, but still allow
-            // it to be referenced from converted instructions.
+            // In DWARF 5 file index 0 is the primary source file and rows may
+            // name it. gimli's id for that entry cannot be constructed outside
+            // of gimli, so register the primary file as an ordinary file too
+            // and let index 0 refer to that entry.
+            files.push(program.add_file(
+                comp_name,
+                program.default_directory(),
+                comp_file_info,
+            ));
             1
         };
 
@@ -259,13 +266,20 @@ where
                                     program.row().op_index = from_row.op_index();
                                     program.row().file = {
                                         let file = from_row.file_index();
-                                        if file > files.len() as u64 {
-                                            return Err(write::ConvertError::InvalidFileIndex);
-                                        }
                                         if file == 0 && program.version() <= 4 {
                                             return Err(write::ConvertError::InvalidFileIndex);
                                         }
-                                        files[(file - 1) as usize]
+                                        // `files` is indexed from file 1 for DWARF <= 4
+                                        // and from file 0 for DWARF 5.
+                                        let index = if program.version() <= 4 {
+                                            file - 1
+                                        } else {
+                                            file
+                                        };
+                                        if index >= files.len() as u64 {
+                                            return Err(write::ConvertError::InvalidFileIndex);
+                                        }
+                                        files[index as usize]
                                     };
                                     program.row().line = match from_row.line() {
                                         Some(line) => line.get(),
